@@ -813,6 +813,40 @@ func (g *G) Mutants(root *sg.Schema, doc any, cl Classes, perSite int, intLimits
 					}
 				}
 			}
+			if cl["default"] {
+				for _, p := range view.Props {
+					if !p.S.HasDefault {
+						continue
+					}
+					pp := append(append([]any{}, st.Path...), p.Name)
+					base := v
+					if !v.Has(p.Name) {
+						base = append(append(jsonx.Obj{}, v...), jsonx.KV{K: p.Name, V: nil})
+					}
+					withBase := Set(doc, st.Path, base)
+					emit("default", "default-absent", pp, DelKey(doc, st.Path, p.Name))
+					emit("default", "default-null", pp, Set(withBase, pp, nil))
+					var zero any
+					switch jsonx.Kind(p.S.Default) {
+					case "string":
+						zero = ""
+					case "number":
+						zero = jsonx.Num("0")
+					case "boolean":
+						zero = false
+					case "array":
+						zero = []any{}
+					}
+					if zero != nil {
+						emit("default", "default-present-zero", pp, Set(withBase, pp, zero))
+					}
+					for k := 0; k < 2; k++ {
+						if x, ok := g.valid(p.S, Random, 0); ok && x != nil {
+							emit("default", "default-present-other", pp, Set(withBase, pp, x))
+						}
+					}
+				}
+			}
 			if cl["addkey"] && len(view.Props) > 0 {
 				var vals []any
 				if s.AddProps != nil {
